@@ -38,6 +38,11 @@ tests = [
  ('round', lambda a: jnp.round(a * 3), (f32(6),)),
  ('vmap cond', lambda p, x: jax.vmap(lambda pp, xx: jax.lax.cond(pp > 0, lambda v: v + 1, lambda v: v * 2, xx))(p, x), (f32(3), f32(3))),
  ('minmax', lambda a: (a.min(), a.max(), jnp.abs(a), jnp.sign(a)), (f32(5),)),
+ ('pad interior', lambda x: jax.lax.pad(x, jnp.float32(0.5), ((1, 2, 1),)), (f32(4),)),
+ ('pad negative', lambda x: jax.lax.pad(x, jnp.float32(0.5), ((-1, -1, 2), (1, 0, 1))), (f32(5, 3),)),
+ ('sort', lambda x: jnp.sort(x), (i32(3, 1, 2, 1, 0),)),
+ ('argsort stable', lambda x: jnp.argsort(x), (i32(2, 1, 2, 1, 0),)),
+ ('sort axis0', lambda x: jnp.sort(x, axis=0), (f32(4, 3),)),
 ]
 bad = 0
 for name, f, args in tests:
